@@ -56,6 +56,11 @@ def OBJ(key: str) -> Sort:
     return Sort("obj", key)
 
 
+def ROWS_UPTO(n: int) -> Sort:
+    """list of 0..n RdfStreamRow messages (callers fork over the length)"""
+    return Sort("rows_upto", n)
+
+
 def NEWOBJ(key: str) -> Sort:
     """`self` of a constructor: a freshly allocated object of the class, no fields set yet."""
     return Sort("newobj", key)
@@ -138,6 +143,7 @@ class Contract:
     is_lemma: bool = False
     lemma_src: str = ""
     cover: Callable[[Any], dict[str, Any]] | None = None
+    touches: list[str] = field(default_factory=list)   # message parameters the callee writes into (presence propagates)
 
 
 class Registry:
@@ -190,7 +196,9 @@ def contract(key: str, serves: list[str] | None = None, trusted: bool = False, i
             file=inspect.getsourcefile(cls) or "",
             tags=dict(cls.__dict__.get("tags", {})),
             cover=_fn(cls, "cover"),
+            touches=list(cls.__dict__.get("touches", [])),
         )
+        c.virtual = bool(cls.__dict__.get("virtual", False))
         REGISTRY.add(c)
         return cls
     return deco
